@@ -37,6 +37,9 @@ type Run struct {
 	Repeat int `json:"repeat"`
 	// Rev: build context maps inserting the keys in reverse order
 	Rev bool `json:"rev"`
+	// Shared > 0: render Shared times with the SAME context value; every render must give the
+	// first one's result and the context (deep snapshot incl. slice capacity windows) must not change
+	Shared int `json:"shared"`
 }
 
 type Expect struct {
@@ -447,9 +450,28 @@ func checkCase(c *Case, limit time.Duration) (res Result, hung bool) {
 			}
 			reverseInsertion = false
 		}
+		var before string
+		if r.Shared > 0 {
+			before = snapshot(rctx)
+		}
 		o := renderRunTimed(c, r, rctx, limit)
 		recordObs(c, r, &o)
 		digest.Write([]byte(fmt.Sprintf("%s|%v|%s|%s\n", r.Label, o.ok, o.kind, o.out)))
+		if r.Shared > 0 {
+			shared := renderRunTimed(c, r, rctx, limit)
+			if shared.ok != o.ok || shared.out != o.out {
+				// o was rendered with the same value too: compare
+				res.Pass = false
+				res.Fails = append(res.Fails, Fail{Run: r.Label, Why: "second-render-differs", Got: short(shared.out), Want: short(o.out), Src: short(src)})
+			}
+			for k := 1; k < r.Shared; k++ {
+				renderRunTimed(c, r, rctx, limit)
+			}
+			if after := snapshot(rctx); after != before {
+				res.Pass = false
+				res.Fails = append(res.Fails, Fail{Run: r.Label, Why: "context-modified", Got: short(after), Want: short(before), Src: short(src)})
+			}
+		}
 		for rep := 1; rep < r.Repeat && o.kind != "hang"; rep++ {
 			// a fresh context value and a fresh engine every time
 			rc2, _ := scopeOf(rawCtx)
